@@ -49,7 +49,11 @@ Frag(cc) ==
    LET withF == Apply(cc.kind, Min(cc.kind), cc.fv)
        (* one structured and one scalar extension value (a map-like container that mistook x- keys for    *)
        (* entries would still round-trip an object-valued one)                                            *)
-       withX == IF cc.ext \in {"x", "xu"} THEN SetKey(SetKey(withF, "x-ext", AnyV), "x-n", Nm("1")) ELSE withF
+       (* extension names are data too: the bare prefix "x-", a name with dot, slash and blank; a null-valued  *)
+       (* extension, an array-valued one                                                                   *)
+       withX == IF cc.ext \in {"x", "xu"}
+                THEN SetKey(SetKey(SetKey(SetKey(SetKey(withF, "x-ext", AnyV), "x-n", Nm("1")), "x-", Sv("bare")), "x-A.b/c d", N), "x-arr", AnyArr)
+                ELSE withF
        (* ... and, on a schema, unknown keys that are keywords of LATER drafts (const, if, $comment, examples): still unknown here *)
        withU == IF cc.ext \in {"unk", "xu"} THEN SetKey(withX, "unknownField", O1("u", Nm("1"))) ELSE withX
    IN IF cc.ext \in {"unk", "xu"} /\ cc.kind = "Schema"
